@@ -166,7 +166,8 @@ def make_body(job):
       check('request.free-shrinks', len(F2) == max(0, nf - 1))
       # the frame queued for the wire carries exactly that tag
       check('request.one-frame-queued', s._send_queue.qsize() == 1)
-      payload, props = s._send_queue.get()
+      if s._send_queue.qsize() != 1: return
+      payload, props = s._send_queue.get_nowait()
       check('request.frame-tag', header_tag(kind, payload) == tag)
     elif op == 'reply':
       r = fresh_int('r', 0, 2 ** 24 - 1)
